@@ -141,3 +141,25 @@ PROPS["C16"] = dict(
     assumptions=[],
     gen_items=["CAP"],
 )
+
+PROPS["C17"] = dict(
+    level="other",
+    technique="conformance of a dependency to a standard: Lean reference Keccak-256 (total, executable) vs tiny-keccak on every length 0..1100 + long messages; Lean theorems for what is monero-rs logic: hash-to-scalar = LE(digest) mod l, padding length/shape, sponge block structure; published KATs by kernel evaluation (labelled tests)",
+    level_text="PARTIAL by nature: keccak_256 is a six-line wrapper around tiny-keccak, so that the dependency *is* Keccak-f[1600] for all inputs cannot be proved here. Proved: C17_hs / C17_hash_to_scalar (result < l, = little-endian value mod l, identity below l, 32-byte encoding), C17_hs_spec (= an independently written reduction), C17_pad_len / C17_pad_shape (original 0x01..0x80 padding, rate 136), C17_absorb_blocks (the sponge absorbs exactly |pad m|/136 blocks); C17_kats_* check published vectors in the kernel (tests, not the unbounded claim). Decided by conformance: library hash = Lean reference Keccak for every length 0..=1100 (seed-derived content), block-boundary lengths and 200 (quick) / 20 000 (thorough) longer messages; hash-to-scalar on random digests and digests >= l, 2l, 2^256-1.",
+    level_note="Trusted: Lean kernel and the compiled reference Keccak (validated against published vectors in the kernel); tiny-keccak is modelled, not verified. What the model cannot exhibit: a divergence of tiny-keccak from Keccak-f on an untested input.",
+    design_ref="DESIGN.md §6 C17",
+    rule="every message length 0..=1100, lengths around 136*k, longer random messages; digests incl. values >= l and 2^256-1.",
+    assumptions=["tiny-keccak implements Keccak-f[1600] (tested, not proved)"],
+    gen_items=[],
+)
+
+PROPS["C13"] = dict(
+    level="proof",
+    technique="Lean 4 theorems about a model of PrivateKey::from_slice / PublicKey::from_slice (dalek's permissive decompress mirrored incl. sqrt_ratio_i, then recompress-and-compare) over ZMod p with a machine-checked primality certificate of p (Pratt/Lucas) and the p = 5 mod 8 square-root argument; group arithmetic by conformance to a Lean reference curve",
+    level_text="C13_secret_iff: accepted <-> 32 bytes and LE value < l. C13_public_iff (sound + complete): accepted <-> canonical encoding of a point on the curve (y < p, x recoverable with the encoded sign, no negative zero); completeness uses Nat.Prime p proved from a generated Pratt certificate. C13_public_eq_reference: the model accepts exactly what RFC 8032 strict decoding accepts, for every byte string. C13_rejects_noncanonical_y (all y in [p, 2^255)), C13_rejects_negative_zero, C13_bytes_roundtrip (binary, hex, consensus). Key ARITHMETIC (from_private_key, +, -, *) delegates to curve25519-dalek and is decided by conformance against the Lean reference curve on random and special operands (identity, small-order points, l-1, P+(-P)) plus the algebraic identities of the property.",
+    level_note="Trusted: Lean kernel (+ Mathlib for ZMod / lucas_primality); model/Rust correspondence of acceptance differential (incl. all 38 non-canonical-y encodings, both negative-zero encodings, the 8 small-order points); dalek's field/point arithmetic modelled by Ref/Ed25519.lean and validated differentially, not proved (Mathlib has no Edwards group law).",
+    design_ref="DESIGN.md §6 C13",
+    rule="random 32-byte strings, all non-canonical-y and negative-zero encodings, small-order points and sign flips, random valid points / invalid y, boundary scalars; arithmetic on random and special operands.",
+    assumptions=["'is the group law' for dalek's arithmetic is conformance, not proof"],
+    gen_items=[],
+)
